@@ -31,6 +31,11 @@ import (
 
 // ---------- shared projections ----------
 
+type extJ struct {
+	ID int   `json:"id"`
+	P  []int `json:"p"`
+}
+
 type hdrJ struct {
 	Pad     bool    `json:"pad"`
 	PadSize int     `json:"padsize"`
@@ -40,6 +45,9 @@ type hdrJ struct {
 	TS      int64   `json:"ts"`
 	SSRC    int64   `json:"ssrc"`
 	CSRC    []int64 `json:"csrc"`
+	Ext     bool    `json:"ext"`  // Header.Extension
+	Prof    int     `json:"prof"` // Header.ExtensionProfile
+	Xs      []extJ  `json:"xs"`   // Header.Extensions in slice order (distinct ids)
 }
 
 func (h hdrJ) rtp() *rtp.Header {
@@ -51,25 +59,84 @@ func (h hdrJ) rtp() *rtp.Header {
 	for _, c := range h.CSRC {
 		out.CSRC = append(out.CSRC, uint32(c)) //nolint:gosec
 	}
+	if h.Ext {
+		out.Extension = true
+		out.ExtensionProfile = uint16(h.Prof) //nolint:gosec
+		for _, x := range h.Xs {
+			if err := out.SetExtension(uint8(x.ID), bytesOf(x.P, false)); err != nil { //nolint:gosec
+				panic("generator produced an invalid header extension: " + err.Error())
+			}
+		}
+	}
 
 	return out
+}
+
+// scribble is the caller re-using its header object and payload buffer right
+// after Write/NewPacket returned: every scalar field, the CSRC entries and the
+// extension payload bytes are rewritten IN PLACE, then an extension is
+// replaced and one removed through the API on the same header object (both
+// write into the caller's Extensions array), and CSRC[0] is overwritten
+// through a re-slice.  A stored packet that shares any of this with the
+// caller's header retransmits the rewritten values.
+func scribble(h *rtp.Header, p []byte) {
+	for k := range p {
+		p[k] ^= 0xA5
+	}
+	h.SequenceNumber ^= 0x5A5A
+	h.Timestamp = ^h.Timestamp
+	h.SSRC ^= 0x00F0F0F0
+	h.PayloadType ^= 0x2A
+	h.Marker = !h.Marker
+	h.Padding = !h.Padding
+	h.PaddingSize ^= 0x3C
+	for k := range h.CSRC {
+		h.CSRC[k] = ^h.CSRC[k]
+	}
+	ids := h.GetExtensionIDs()
+	for _, id := range ids {
+		ext := h.GetExtension(id)
+		for k := range ext {
+			ext[k] ^= 0xFF
+		}
+	}
+	if len(ids) > 0 {
+		_ = h.SetExtension(ids[0], []byte{0xEE, 0xEE})
+	}
+	if len(ids) > 1 {
+		_ = h.DelExtension(ids[0])
+	}
+	if cap(h.CSRC) > 0 {
+		h.CSRC = append(h.CSRC[:0], 0xEEEEEEEE)
+	}
+	h.ExtensionProfile ^= 0x0101
+	h.Extension = !h.Extension
 }
 
 func projHdr(h *rtp.Header) hdrJ {
 	out := hdrJ{
 		Pad: h.Padding, PadSize: int(h.PaddingSize), Marker: h.Marker, PT: int(h.PayloadType),
 		Seq: int(h.SequenceNumber), TS: int64(h.Timestamp), SSRC: int64(h.SSRC), CSRC: []int64{},
+		Ext: h.Extension, Prof: int(h.ExtensionProfile), Xs: []extJ{},
 	}
 	for _, c := range h.CSRC {
 		out.CSRC = append(out.CSRC, int64(c))
+	}
+	for _, id := range h.GetExtensionIDs() {
+		out.Xs = append(out.Xs, extJ{ID: int(id), P: ints(h.GetExtension(id))})
 	}
 
 	return out
 }
 
 func (h hdrJ) coq() string {
+	xs := make([]string, len(h.Xs))
+	for i, x := range h.Xs {
+		xs[i] = cq.T(cq.Z(int64(x.ID)), coqInts(x.P))
+	}
+
 	return cq.C("mkH", cq.B(h.Pad), cq.Z(int64(h.PadSize)), cq.B(h.Marker), cq.Z(int64(h.PT)), cq.Z(int64(h.Seq)),
-		cq.Z(h.TS), cq.Z(h.SSRC), cq.LZ(h.CSRC))
+		cq.Z(h.TS), cq.Z(h.SSRC), cq.LZ(h.CSRC), cq.T(cq.B(h.Ext), cq.Z(int64(h.Prof)), cq.L(xs)))
 }
 
 func ints(b []byte) []int {
@@ -362,8 +429,10 @@ func runPF(start int, calls []pfCall) pfCase {
 	c := pfCase{Start: start, Calls: calls}
 	f := verifhooks.NewPacketFactoryCopyFixedRTX(uint16(start)) //nolint:gosec
 	for _, cl := range calls {
-		p, err := f.NewPacket(cl.H.rtp(), bytesOf(cl.P, cl.Nil), uint32(cl.RS), uint8(cl.RPT)) //nolint:gosec
-		o := pfOut{Code: errCode(err), H: hdrJ{CSRC: []int64{}}, P: []int{}}
+		hdr, pay := cl.H.rtp(), bytesOf(cl.P, cl.Nil)
+		p, err := f.NewPacket(hdr, pay, uint32(cl.RS), uint8(cl.RPT)) //nolint:gosec
+		scribble(hdr, pay) // the stored packet is observed after the caller has re-used its header and buffer
+		o := pfOut{Code: errCode(err), H: hdrJ{CSRC: []int64{}, Xs: []extJ{}}, P: []int{}}
 		if err == nil {
 			o.Seq = int(p.VerifSequenceNumber())
 			o.H = projHdr(p.Header())
@@ -395,9 +464,11 @@ func (c pfCase) toCase(buckets ...string) cq.Case {
 // genPacket draws a header + payload: lengths {0,1,..,1458..1461}, both padding conventions.
 func genPacket(r *rand.Rand, ssrc int64, seq int, bk map[string]bool, allowLong bool) (hdrJ, []int, bool) {
 	h := hdrJ{PT: 96 + r.Intn(3), Seq: seq, TS: int64(r.Uint32()), SSRC: ssrc, Marker: r.Intn(4) == 0, CSRC: []int64{}}
-	if r.Intn(8) == 0 {
-		h.CSRC = []int64{int64(r.Uint32()), 7}[:1+r.Intn(2)]
+	if r.Intn(3) == 0 {
+		h.CSRC = []int64{int64(r.Uint32()), 7, int64(r.Uint32()), 0xFFFFFFFF}[:1+r.Intn(4)]
+		bk["csrc"] = true
 	}
+	genExt(r, &h, bk)
 	var n int
 	switch k := r.Intn(100); {
 	case k < 12:
@@ -457,6 +528,55 @@ func genPacket(r *rand.Rand, ssrc int64, seq int, bk map[string]bool, allowLong 
 	}
 
 	return h, p, isNil
+}
+
+// genExt draws header extensions: RFC 8285 one-byte (ids 1..14, 0..16 bytes), two-byte (ids 1..255, 0..255
+// bytes), RFC 3550 (id 0, any profile), or the flag with an empty list.
+func genExt(r *rand.Rand, h *hdrJ, bk map[string]bool) {
+	h.Xs = []extJ{}
+	rb := func(n int) []int {
+		p := make([]int, n)
+		for i := range p {
+			p[i] = r.Intn(256)
+		}
+
+		return p
+	}
+	distinct := func(n, lo, hi int) []int {
+		seen := map[int]bool{}
+		var ids []int
+		for len(ids) < n {
+			id := lo + r.Intn(hi-lo+1)
+			if !seen[id] {
+				seen[id] = true
+				ids = append(ids, id)
+			}
+		}
+
+		return ids
+	}
+	switch k := r.Intn(100); {
+	case k < 55:
+	case k < 75:
+		h.Ext, h.Prof = true, 0xBEDE
+		for _, id := range distinct(1+r.Intn(3), 1, 14) {
+			h.Xs = append(h.Xs, extJ{ID: id, P: rb([]int{0, 1, 2, 3, 8, 16, 1 + r.Intn(16)}[r.Intn(7)])})
+		}
+		bk["ext-one-byte"] = true
+	case k < 90:
+		h.Ext, h.Prof = true, 0x1000
+		for _, id := range distinct(1+r.Intn(3), 1, 255) {
+			h.Xs = append(h.Xs, extJ{ID: id, P: rb([]int{0, 1, 17, 40, 255, r.Intn(60)}[r.Intn(6)])})
+		}
+		bk["ext-two-byte"] = true
+	case k < 96:
+		h.Ext, h.Prof = true, []int{0x1234, 0, 0xFFFF}[r.Intn(3)]
+		h.Xs = append(h.Xs, extJ{ID: 0, P: rb(4 * r.Intn(4))})
+		bk["ext-rfc3550"] = true
+	default:
+		h.Ext, h.Prof = true, 0xBEDE
+		bk["ext-flag-only"] = true
+	}
 }
 
 func genPF(r *rand.Rand) cq.Case {
